@@ -41,6 +41,9 @@ func GenerateClient(name string, modelNames, operationIDs []string, opts *GenOpt
 	}
 
 	operations := gatherOperations(analyzed, operationIDs)
+	if err := checkAllOperationsGathered(analyzed, operationIDs, operations); err != nil {
+		return err
+	}
 	if len(operations) == 0 {
 		return errors.New("no operations were selected")
 	}
